@@ -4,7 +4,7 @@
    Nothing but statements here. *)
 From Coq Require Import List NArith ZArith Bool String.
 From VRL Require Import Base.Bytes Base.Value Base.Lit Model.ValueCrud Model.Kind Model.KindCrud Model.KindDomains
-  Proofs.KindBasics Proofs.KindMergeProofs Proofs.KindGetProofs Proofs.KindSupersetProofs Proofs.KindInsertProofs Proofs.KindRemoveProofs.
+  Proofs.KindBasics Proofs.KindMergeProofs Proofs.KindGetProofs Proofs.KindSupersetProofs Proofs.KindInsertProofs Proofs.KindRemoveProofs Proofs.KindFuelProofs.
 Import ListNotations.
 Local Open Scope string_scope.
 Local Open Scope list_scope.
@@ -24,6 +24,14 @@ Theorem C19_union_sound_any_fuel : forall (n : nat) (a b : kind) (v : value),
   compat_f n a b = true -> member v a = true \/ member v b = true -> member v (merge_f n false a b) = true.
 Proof. exact merge_f_union_sound. Qed.
 Print Assumptions C19_union_sound_any_fuel.
+
+(* the fuel `depth a + depth b` that union / merge_keep / is_superset run with always suffices: any larger
+   amount gives the same result, so the out-of-fuel answers (`any`, `false`) are never what they return *)
+Theorem C19_fuel_adequate : forall (a b : kind) (ow : bool) (n : nat),
+  (depth a + depth b <= n)%nat ->
+  merge_f n ow a b = merge_keep a b ow /\ superset_f n a b = is_superset a b.
+Proof. intros a b ow n H. split; [apply merge_keep_fuel_adequate | apply is_superset_fuel_adequate]; exact H. Qed.
+Print Assumptions C19_fuel_adequate.
 
 (* outside union_compat the statement is false of the code: array<timestamp> | array<json> = array<json> *)
 Theorem C19_union_exact_vs_json_refuted : exists (a b : kind) (v : value),
